@@ -400,6 +400,12 @@ func fromRecipe(recipe string, m int) (caseIn, error) {
 			return caseIn{}, err
 		}
 		return caseIn{recipe, p.File, m, true, true}, nil
+	case "emb":
+		p, err := astx.ParseEmbedded(fs[1])
+		if err != nil {
+			return caseIn{}, err
+		}
+		return caseIn{recipe, p.File, m, true, true}, nil
 	case "mut":
 		seed, _ := strconv.ParseUint(fs[2], 10, 64)
 		path := filepath.Join(astx.Repo(), fs[1])
@@ -478,6 +484,9 @@ func main() {
 	}
 
 	// 1. corpus: every XGo-family file, and Go files (all in thorough, a seeded sample in quick)
+	for _, name := range astx.EmbeddedFiles() {
+		try("emb|"+name, 0)
+	}
 	xgo, gofiles := astx.CorpusFiles()
 	for i, p := range xgo {
 		try("file|"+rel(p), 0)
